@@ -5,8 +5,9 @@
    No Extract Constant / Extract Inductive of our own. Run from the output directory:
      cd /verif/.build/oracle && coqc -Q /verif/coq LE /verif/coq/Extract.v *)
 From Coq Require Import Extraction ExtrOcamlBasic.
-From LE Require Import Base Config ConfigSpec GenConfig.
+From LE Require Import Base Strs Config Err ConfigSpec ErrSpec GenConfig GenErrors.
 
 Extraction Language OCaml.
 Extraction "extracted.ml"
-  validate_config valid_specb mkCfg.
+  validate_config valid_specb mkCfg
+  msg is_permanent is_transient class_ok required_class nats_situation_permanent.
